@@ -279,12 +279,14 @@ func spec_recvOK(i int) bool { panic("spec") }
 //@ func rootState
 //@ props C13
 //@ results next
+//@ modifies l.start, l.startLoc, l.end, l.width, l.prev, l.loc
 //@ requires wfL(l)
 //@ ensures [C13] stepOK(l, rootState, next, old(l.end))
 
 //@ func CommentState
 //@ props C13
 //@ results next
+//@ modifies l.start, l.startLoc, l.end, l.width, l.prev, l.loc
 //@ requires wfL(l) && commentAhead(l)
 //@ ensures [C13] stepOK(l, CommentState, next, old(l.end)) && next == rootState && l.end > old(l.end)
 //@ loop 0: invariant wfL(l) && l.end >= old(l.end)
@@ -294,6 +296,7 @@ func spec_recvOK(i int) bool { panic("spec") }
 //@ func ActionQuoteState
 //@ props C13
 //@ results next
+//@ modifies l.start, l.startLoc, l.end, l.width, l.prev, l.loc
 //@ requires wfL(l)
 //@ ensures [C13] stepOK(l, ActionQuoteState, next, old(l.end))
 //@ loop 0: invariant wfL(l) && l.end >= old(l.end)
@@ -302,6 +305,7 @@ func spec_recvOK(i int) bool { panic("spec") }
 //@ func stringKindState
 //@ props C13
 //@ results next
+//@ modifies l.start, l.startLoc, l.end, l.width, l.prev, l.loc
 //@ requires wfL(l)
 //@ ensures [C13] stepOK(l, stringKindState, next, old(l.end))
 //@ loop 0: invariant wfL(l) && (r == eof || r >= 0) && l.end >= old(l.end)
@@ -310,6 +314,7 @@ func spec_recvOK(i int) bool { panic("spec") }
 //@ func IdentifyState
 //@ props C13
 //@ results next
+//@ modifies l.start, l.startLoc, l.end, l.width, l.prev, l.loc
 //@ requires wfL(l)
 //@ ensures [C13] stepOK(l, IdentifyState, next, old(l.end))
 //@ loop 0: invariant wfL(l) && (r == eof || r >= 0) && l.start <= l.end - l.width && l.end - l.width >= old(l.end)
@@ -318,6 +323,7 @@ func spec_recvOK(i int) bool { panic("spec") }
 //@ func CodeQuoteBegin
 //@ props C13
 //@ results next
+//@ modifies l.start, l.startLoc, l.end, l.width, l.prev, l.loc
 //@ requires wfL(l)
 //@ ensures [C13] stepOK(l, CodeQuoteBegin, next, old(l.end))
 //@ loop 0: invariant wfL(l) && vstart <= l.end
@@ -328,6 +334,7 @@ func spec_recvOK(i int) bool { panic("spec") }
 //@ func DirectiveUnionState
 //@ props C13
 //@ results next
+//@ modifies l.start, l.startLoc, l.end, l.width, l.prev, l.loc
 //@ requires wfL(l)
 //@ ensures [C13] stepOK(l, DirectiveUnionState, next, old(l.end))
 //@ loop 0: invariant wfL(l) && l.end >= old(l.end)
@@ -338,24 +345,28 @@ func spec_recvOK(i int) bool { panic("spec") }
 //@ func charaterState
 //@ props C13
 //@ results next
+//@ modifies l.start, l.startLoc, l.end, l.width, l.prev, l.loc
 //@ requires wfL(l)
 //@ ensures [C13] stepOK(l, charaterState, next, old(l.end))
 
 //@ func ActionState
 //@ props C13
 //@ results next
+//@ modifies l.start, l.startLoc, l.end, l.width, l.prev, l.loc
 //@ requires wfL(l)
 //@ ensures [C13] stepOK(l, ActionState, next, old(l.end))
 
 //@ func DirectiveState
 //@ props C13
 //@ results next
+//@ modifies l.start, l.startLoc, l.end, l.width, l.prev, l.loc
 //@ requires wfL(l) && l.end >= 1
 //@ ensures [C13] stepOK(l, DirectiveState, next, old(l.end))
 
 //@ func DirectiveOtherState
 //@ props C13
 //@ results next
+//@ modifies l.start, l.startLoc, l.end, l.width, l.prev, l.loc
 //@ requires wfL(l)
 //@ ensures [C13] stepOK(l, DirectiveOtherState, next, old(l.end))
 
